@@ -51,6 +51,9 @@ CHECKS = {
  "C20": ("fault_enumeration", "runtime monitor of the real Fetcher (and IP client) against a scripted TLS NTS-KE server: enumerated record-stream faults (record x position, truncation at every byte, segmentation at every byte, ALPN offers) and sequences of failed and successful exchanges; keys compared with the server side's exporter values",
          "Every fault class is enumerated over every position of a conformant message; verdict per stream derived from the statement (must fail / must succeed / either); state after failures observed through connection counts and tagged cookies.",
          "IP-literal server records only; TLS library and exporter trusted; warning records and non-canonical record lengths are judged only for crash-freedom and, if accepted, for the rest of the stream", "3/C20"),
+ "C05": ("exploration", "runtime monitor of the real IP and SCION clients against a scripted loopback peer that answers each request with a script of crafted datagrams, each tagged by a distinct huge clock offset so that the returned offset identifies the datagram it was computed from",
+         "Every single-field mutation of a genuine reply (and NTS / SCION addressing defects) alone and in random scripts before a genuine terminator; acceptance judged by a predicate taken from the statement; a floor on genuine-only successes guards against 'rejects everything'.",
+         "loopback; datagrams from the queried address but another port and sub-nanosecond transmit/receive inversions are not judged; SPAO is C13's subject", "3/C05"),
 }
 
 NOT_APPLICABLE = {
